@@ -32,6 +32,10 @@ type zzGateWorld struct {
 	fsmHeight      uint64
 	committed      []*lib.QuorumCertificate
 	committedBlock []*lib.Block
+	// rawHeader: what the raw-field scanner (first occurrence of field 1) sees in the block bytes.
+	// nil = the canonical encoding, i.e. the same header the decoder produces. Protobuf decoders
+	// merge repeated occurrences of a field, so attacker-crafted bytes can make the two differ.
+	rawHeader *lib.BlockHeader
 }
 
 var zzW zzGateWorld
@@ -64,6 +68,9 @@ func zzBytesToBlockHash(x *lib.Block, bz []byte) ([]byte, lib.ErrorI) {
 	}
 	if blk.BlockHeader == nil {
 		return crypto.Hash(nil), nil
+	}
+	if zzW.rawHeader != nil && x != nil {
+		blk.BlockHeader = zzW.rawHeader
 	}
 	h := *blk.BlockHeader
 	h.Hash = nil
@@ -106,6 +113,10 @@ func ZZ_C02_HandlePeerBlock_gate() {
 	qc := zzQC("qc", n)
 	blk := zzBlock(n)
 	qc.Block, _ = lib.Marshal(blk)
+	if zzBool("nonCanonicalBlockBytes") {
+		// the bytes carry a second header occurrence: scanner and decoder see different headers
+		zzW.rawHeader = zzBlock(n).BlockHeader
+	}
 	qc.Results = &lib.CertificateResult{RewardRecipients: &lib.RewardRecipients{PaymentPercents: []*lib.PaymentPercents{{Address: zzBytes("res.addr", 20), Percent: zzU64("res.pct"), ChainId: zzU64("res.chain")}}}}
 	// ground truth: what honest validators signed
 	p0, p1 := zzQC("p0", n).SignBytes(), zzQC("p1", n).SignBytes()
